@@ -6,6 +6,7 @@ import (
 	"crypto/rsa"
 	"crypto/sha256"
 	"crypto/sha512"
+	"fmt"
 
 	"github.com/cloudflare/circl/blindsign/blindrsa"
 	"github.com/cloudflare/pat-go/tokens"
@@ -66,6 +67,12 @@ func (s BasicPublicTokenRequestState) FinalizeToken(blindSignature []byte) (toke
 
 // https://ietf-wg-privacypass.github.io/base-drafts/caw/pp-issuance/draft-ietf-privacypass-protocol.html#name-issuance-protocol-for-publi
 func (c BasicPublicClient) CreateTokenRequest(challenge, nonce []byte, tokenKeyID []byte, tokenKey *rsa.PublicKey) (BasicPublicTokenRequestState, error) {
+	// The token has fixed-width fields: with a nonce or key ID of another length the finalized token would not
+	// carry the request's values
+	if len(nonce) != 32 || len(tokenKeyID) != 32 {
+		return BasicPublicTokenRequestState{}, fmt.Errorf("invalid nonce or token key ID length")
+	}
+
 	verifier := blindrsa.NewVerifier(tokenKey, crypto.SHA384)
 
 	context := sha256.Sum256(challenge)
@@ -99,6 +106,12 @@ func (c BasicPublicClient) CreateTokenRequest(challenge, nonce []byte, tokenKeyI
 }
 
 func (c BasicPublicClient) CreateTokenRequestWithBlind(challenge, nonce []byte, tokenKeyID []byte, tokenKey *rsa.PublicKey, blind, salt []byte) (BasicPublicTokenRequestState, error) {
+	// The token has fixed-width fields: with a nonce or key ID of another length the finalized token would not
+	// carry the request's values
+	if len(nonce) != 32 || len(tokenKeyID) != 32 {
+		return BasicPublicTokenRequestState{}, fmt.Errorf("invalid nonce or token key ID length")
+	}
+
 	verifier := blindrsa.NewVerifier(tokenKey, crypto.SHA384)
 
 	context := sha256.Sum256(challenge)
